@@ -1,2 +1,118 @@
+/-
+  Helper lemmas for property C11 (data / fill / string directives).
+-/
 import BespokeVerif.Model.Layout
 import BespokeVerif.Lemmas.Bits
+import BespokeVerif.Lemmas.ExprEval
+namespace BV.DataLemmas
+open BV
+
+/-! ## `byteAt` arithmetic -/
+
+theorem byteAt_zero (v : Int) : byteAt v 0 = (v % 256).toNat := by
+  unfold byteAt
+  simp
+
+theorem byteAt_succ (v : Int) (k : Nat) : byteAt v (k + 1) = byteAt (v / 256) k := by
+  unfold byteAt
+  rw [Int.pow_succ, Int.mul_comm, Int.ediv_ediv_of_nonneg (by decide)]
+
+theorem byteAt_mod (v : Int) (w j : Nat) (hj : j < w) :
+    byteAt (v % (2 : Int) ^ (8 * w)) j = byteAt v j := by
+  unfold byteAt
+  have e : (2 : Int) ^ (8 * w) = 256 ^ j * (256 * 2 ^ (8 * (w - j - 1))) := by
+    have : 8 * w = 8 * j + (8 + 8 * (w - j - 1)) := by omega
+    rw [this, Int.pow_add, Int.pow_add, Int.pow_mul]; rfl
+  have hA : (0 : Int) < 256 ^ j := Int.pow_pos (by decide)
+  rw [e, EvalLemmas.ediv_emod_of_mask v _ 256 _ hA]
+
+theorem byteAt_cast (v : Int) (k : Nat) : ((byteAt v k : Nat) : Int) = (v / 256 ^ k) % 256 := by
+  unfold byteAt
+  omega
+
+theorem emod_mul_split (v M : Int) (hM : 0 < M) :
+    v % 256 + 256 * ((v / 256) % M) = v % (256 * M) := by
+  have h1 := Int.emod_add_mul_ediv v 256
+  have h2 := Int.emod_add_mul_ediv (v / 256) M
+  have h3 := Int.emod_nonneg (v / 256) (Int.ne_of_gt hM)
+  have h4 := Int.emod_lt_of_pos (v / 256) hM
+  generalize (v / 256) % M = s at *
+  generalize (v / 256) / M = t at *
+  generalize hq : v / 256 = q at *
+  have h5 : 256 * s + 256 * M * t = 256 * q := by
+    rw [← h2, Int.mul_add, Int.mul_assoc]
+  have hv : v = (v % 256 + 256 * s) + (256 * M) * t := by
+    omega
+  have hr0 : 0 ≤ v % 256 := Int.emod_nonneg _ (by decide)
+  have hr1 : v % 256 < 256 := Int.emod_lt_of_pos _ (by decide)
+  generalize v % 256 = r at *
+  rw [hv, Int.add_mul_emod_self_left]
+  symm
+  apply Int.emod_eq_of_lt <;> omega
+
+/-! ## `wordBytes` -/
+
+theorem wordBytes_length (w : Nat) (little : Bool) (v : Int) : (wordBytes w little v).length = w := by
+  unfold wordBytes
+  cases little <;> simp
+
+theorem wordBytes_little (w : Nat) (v : Int) (j : Nat) (hj : j < w) :
+    (wordBytes w true v)[j]? = some (byteAt v j) := by
+  simp [wordBytes, hj]
+
+theorem wordBytes_big (w : Nat) (v : Int) (j : Nat) (hj : j < w) :
+    (wordBytes w false v)[j]? = some (byteAt v (w - 1 - j)) := by
+  simp [wordBytes, hj]
+
+theorem wordBytes_mod (w : Nat) (little : Bool) (v : Int) :
+    wordBytes w little v = wordBytes w little (v % (2 : Int) ^ (8 * w)) := by
+  have : (List.range w).map (byteAt v) = (List.range w).map (byteAt (v % (2 : Int) ^ (8 * w))) := by
+    apply List.map_congr_left
+    intro j hj
+    exact (byteAt_mod v w j (List.mem_range.mp hj)).symm
+  unfold wordBytes
+  simp only [this]
+
+theorem wordBytes_value (w : Nat) (v : Int) :
+    ((wordBytes w true v).foldr (fun (b : Nat) (acc : Int) => (b : Int) + 256 * acc) (0 : Int))
+      = v % (2 : Int) ^ (8 * w) := by
+  simp only [wordBytes, if_true]
+  induction w generalizing v with
+  | zero => simp
+  | succ w ih =>
+    rw [List.range_succ_eq_map, List.map_cons, List.foldr_cons, List.map_map]
+    have : (byteAt v ∘ Nat.succ) = byteAt (v / 256) := by
+      funext k; exact byteAt_succ v k
+    rw [this, ih, byteAt_cast]
+    have hM : (0 : Int) < 2 ^ (8 * w) := Int.pow_pos (by decide)
+    have e : (2 : Int) ^ (8 * (w + 1)) = 256 * 2 ^ (8 * w) := by
+      have : 8 * (w + 1) = 8 + 8 * w := by omega
+      rw [this, Int.pow_add]; rfl
+    rw [e, ← emod_mul_split v _ hM]
+    simp
+
+/-! ## `mapM` in `Except` -/
+
+theorem mapM_ok_length {α β ε : Type} (f : α → Except ε β) (l : List α) (r : List β)
+    (h : l.mapM f = .ok r) : r.length = l.length := by
+  induction l generalizing r with
+  | nil => simp [List.mapM_nil, pure, Except.pure] at h; subst h; rfl
+  | cons a l ih =>
+    rw [List.mapM_cons] at h
+    cases hf : f a with
+    | error e => simp [hf, bind, Except.bind] at h
+    | ok b =>
+      cases hl : l.mapM f with
+      | error e => simp [hf, hl, bind, Except.bind] at h
+      | ok bs =>
+        simp [hf, hl, bind, Except.bind, pure, Except.pure] at h
+        subst h
+        simp [ih bs hl]
+
+theorem flatMap_wordBytes_length (w : Nat) (little : Bool) (vs : List Int) :
+    (vs.flatMap (wordBytes w little)).length = w * vs.length := by
+  induction vs with
+  | nil => simp
+  | cons v vs ih => simp [List.flatMap_cons, wordBytes_length, ih, Nat.mul_succ]; omega
+
+end BV.DataLemmas
